@@ -52,8 +52,13 @@ def trace_cfg(v, n, lo, count, strict=False):
             % (v, n, lo, count, "TRUE" if strict else "FALSE"))
 
 
+def _entry(s):
+    # entries that are not valid UTF-8 travel hex-encoded (see tabT in the driver); shown here as Latin-1
+    return bytes.fromhex(s[5:]).decode("latin-1") if s.startswith("\x00hex:") else s
+
+
 def render(t, tab):
-    return "".join(tab[l[0] - 1] + ("\n" if l[1] == 1 else "") for l in t)
+    return "".join(_entry(tab[l[0] - 1]) + ("\n" if l[1] == 1 else "") for l in t)
 
 
 class Shard:
